@@ -227,7 +227,7 @@ class Ctx:
             [PY, "-m", "engine.ch_replay", str(harness), fn, payload],
             capture_output=True, text=True, env=env, cwd=str(ROOT), timeout=600,
         )
-        out = (cp.stdout + cp.stderr)[-2000:]
+        out = (cp.stdout + cp.stderr)[-4000:]
         return ("REPLAY: REPRODUCED" in cp.stdout), out
 
     def ch_batch(self, harness_name: str, src: str, conds: list[Cond]) -> dict[str, Result]:
@@ -313,7 +313,13 @@ class Ctx:
             self.oblige(oname, None, f"cex did not replay: {r.message[:200]}")
             self.errors.append(f"{oname}: counterexample did not reproduce outside the solver: {r.message[:200]} :: {r.replay_out[-400:]}")
             return
-        key = c.keyfn(r.args, r.kwargs or {}) if c.keyfn else f"{oname}"
+        key = f"{oname}"
+        if c.keyfn:
+            import inspect as _insp
+            if len(_insp.signature(c.keyfn).parameters) >= 3:
+                key = c.keyfn(r.args, r.kwargs or {}, r.replay_out)
+            else:
+                key = c.keyfn(r.args, r.kwargs or {})
         self.oblige(oname, False, f"violated: {r.message[:300]}", kind="hunt" if hunt else "verify")
         self.report_violation(key, c.what or r.message[:300], self._replay_record(harness, r, src))
 
